@@ -232,7 +232,9 @@ type epochRel struct {
 	allocPre string
 	merge    []epochEdge // a control-flow merge: under cond the components equal those of epoch
 	keep     string      // after a havoc of everything: cells a satisfying keep(a) still hold their parent-epoch value
+	keepFor  func(comp string) string // the same, per partition
 	keepMaps string      // the same for map components (a = the map)
+	keepMapsGround map[string][][2]string // map component -> (guard, map): the map keeps its contents
 }
 
 type epochEdge struct {
@@ -660,14 +662,23 @@ func (u *Universe) declCompConst(name string, e int) string {
 		// ghost / map components are not affected by a region write
 		parent := u.declCompConst(name, rel.parent)
 		u.decls = append(u.decls, fmt.Sprintf("(assert (= %s %s))", cn, parent))
+	} else if ok && rel.keepFor != nil && strings.Contains(name, "$") {
+		if cond := rel.keepFor(name); cond != "false" {
+			parent := u.declCompConst(name, rel.parent)
+			u.lazyFact(cn, fmt.Sprintf("(forall ((a Int)) (! (=> %s (= (select %s a) (select %s a))) :pattern ((select %s a))))", cond, cn, parent, cn))
+		}
 	} else if ok && rel.keep != "" && strings.Contains(name, "$") {
 		// a partition first used after a havoc of everything: protected cells kept their value.  The relation is a fact
 		// about a tracked constant, so that the cone of influence of a goal that mentions it pulls in the holders' definitions
 		parent := u.declCompConst(name, rel.parent)
 		u.lazyFact(cn, fmt.Sprintf("(forall ((a Int)) (! (=> %s (= (select %s a) (select %s a))) :pattern ((select %s a))))", rel.keep, cn, parent, cn))
-	} else if ok && rel.keepMaps != "" && (strings.HasPrefix(name, "MD_") || strings.HasPrefix(name, "MV_") || strings.HasPrefix(name, "ML_")) {
+	} else if ok && len(rel.keepMapsGround[name]) > 0 {
 		parent := u.declCompConst(name, rel.parent)
-		u.lazyFact(cn, fmt.Sprintf("(forall ((a Int)) (! (=> %s (= (select %s a) (select %s a))) :pattern ((select %s a))))", rel.keepMaps, cn, parent, cn))
+		var cs []string
+		for _, gm := range rel.keepMapsGround[name] {
+			cs = append(cs, implies(gm[0], eq("(select "+cn+" "+gm[1]+")", "(select "+parent+" "+gm[1]+")")))
+		}
+		u.lazyFact(cn, and(cs...))
 	}
 	if strings.HasPrefix(name, "MV_") && e > 0 {
 		if f := u.mapValWF(name, cn); f != "" {
